@@ -323,8 +323,10 @@ fn v(prop: &str, sig: &str, msg: String) -> Violation {
 
 impl World {
     fn new() -> World {
-        let d = Direct::new();
+        let mut d = Direct::new();
         let mut actors: Vec<Addr> = (0..N_ACTORS).map(|i| d.api.addr_make(&format!("actor{i}"))).collect();
+        // chain-level (wasm module) admin of the token contract: an ordinary actor, no rights inside the contract
+        d.chain_admin = Some(actors[1].clone());
         actors.push(d.contract.clone());
         let mut rcpts: Vec<String> = actors.iter().map(|a| a.to_string()).collect();
         rcpts.push("x".to_string());
